@@ -9,15 +9,15 @@ def funnel(*names):
 PROPS = {
     "C02": {"kani": [{"module": "c02", "profiles": {"quick": ["nodebug"], "thorough": ["nodebug"]}}], "wmm": True, "prepare": True},
     "C06": {"kani": [{"module": "c06", "profiles": Q_DEV_T_BOTH}]},
-    "C07": {"kani": [{"module": "c07", "profiles": Q_DEV_T_BOTH}]},
+    "C07": {"kani": [{"module": "c07", "profiles": Q_DEV_T_BOTH}], "unwind": True},
     "C14": {"kani": [{"module": "c14", "profiles": Q_DEV}]},
     "C15": {"kani": [{"module": "c15", "profiles": Q_DEV_T_BOTH}]},
     "C17": {"kani": [{"module": "c17", "profiles": Q_DEV}]},
-    "C10": {"kani": [{"module": "c10", "profiles": Q_DEV_T_BOTH}]},
+    "C10": {"kani": [{"module": "c10", "profiles": Q_DEV_T_BOTH}], "unwind": ["ThinArc::with_arc_mut", "ThinArc::with_arc"]},
     "C11": {"kani": [{"module": "c11", "profiles": Q_DEV}]},
     "C12": {"kani": [{"module": "c12", "profiles": Q_DEV}]},
     "C05": {"kani": [{"module": "c05", "profiles": Q_DEV_T_BOTH}]},
-    "C04": {"kani": [{"module": "c04", "profiles": Q_DEV}]},
+    "C04": {"kani": [{"module": "c04", "profiles": Q_DEV}], "unwind": ["ThinArc::with_arc_mut", "ThinArc::with_arc", "OffsetArc::with_arc", "ArcBorrow::with_arc"]},
     "C03": {"kani": [{"module": "c03", "profiles": Q_DEV_T_BOTH}, funnel("funnel_get_unique", "funnel_try_from", "funnel_make_unique", "funnel_offset_make_mut", "funnel_thin_with_arc_mut_get_mut", "tv_get_mut", "tv_is_unique", "tv_try_unique", "tv_make_mut")], "wmm": True, "prepare": True},
     "C08": {"kani": [{"module": "c08", "profiles": Q_DEV_T_BOTH}, funnel("funnel_make_unique", "funnel_offset_make_mut", "tv_make_mut", "tv_is_unique")], "wmm": True, "prepare": True},
     "C09": {"kani": [{"module": "c09", "profiles": Q_DEV_T_BOTH}, funnel("funnel_try_from", "tv_try_unwrap", "tv_unwrap_or_clone", "tv_try_unique", "tv_drop")], "wmm": True, "prepare": True},
